@@ -295,7 +295,9 @@ def r5(F, R):
         if aw_fin.poll_site in sl.sites and g.polarity() is True:
             ok = True
     R.check(ok, "exit-only-if-finished", s_fi, "the loop is left only when IS_FINISHED returned true", "the scheduling loop can be left although IS_FINISHED is false")
-    R.floor(1)
+    from .c04 import check_finished_requires_flag
+    check_finished_requires_flag(F, R, "finished-requires-parsing-finished")
+    R.floor(2)
 
 
 RULES = [("R1", r1, None), ("R2", r2, None), ("R3", r3, None), ("R4", r4, None), ("R5", r5, None)]
